@@ -243,10 +243,18 @@ type H2Peer struct {
 	dec     *hpack.Decoder
 	hbuf    []byte
 	wmu     sync.Mutex
+	nf      chan struct{} // closed and replaced whenever a frame is logged
+}
+
+// notify returns a channel that is closed when the next frame arrives.
+func (p *H2Peer) notify() <-chan struct{} {
+	p.mu.Lock()
+	defer p.mu.Unlock()
+	return p.nf
 }
 
 func NewH2Peer(c net.Conn) *H2Peer {
-	p := &H2Peer{C: c, done: make(chan struct{})}
+	p := &H2Peer{C: c, done: make(chan struct{}), nf: make(chan struct{})}
 	p.Fr = xhttp2.NewFramer(c, c)
 	p.Fr.AllowIllegalWrites = true
 	p.Fr.AllowIllegalReads = true
@@ -313,6 +321,8 @@ func (p *H2Peer) readLoop() {
 		}
 		p.mu.Lock()
 		p.frames = append(p.frames, rf)
+		close(p.nf)
+		p.nf = make(chan struct{})
 		p.mu.Unlock()
 	}
 }
